@@ -275,8 +275,10 @@ def run_case(case, rng):
                 astar = astar_w
         res = case.call("AStarSearch.plan_on", astar.plan_on, prob, facts=facts)
         case.count("astar_calls")
+        res_astar_kept = None
         if res is not case.FAIL:
             validate("astar", res, True, False)
+            res_astar_kept = res
     if rng.random() < 0.3 and len(nodes) >= 3:
         # a user's own MDP class keeping the start on the instance; after planning on it, a COPY of it with another start is
         # planned on (copy.copy / deepcopy, then edit): the plan is for the copy
@@ -322,3 +324,7 @@ def run_case(case, rng):
     case.count("bfs_calls")
     if res is not case.FAIL:
         validate("bfs", res, False, True)
+    # two results alive: the A* result (path, value, POLICY) is read again after breadth-first search planned on the same problem
+    if astar is not case.FAIL and locals().get("res_astar_kept") is not None and rng.random() < 0.5:
+        case.count("results_read_again_after_a_later_plan")
+        validate("astar", res_astar_kept, True, False)
